@@ -886,6 +886,10 @@ def _emit_fn(asm, out, unit, kv, block, default_props):
     named_asserts = []
     hintfree = set()
     hints_lost = []
+    # normalisation applied to every extracted body: `loop { if !C { break; } … }` is `while C { … }`
+    sig, body, n31 = rw.apply('R31', sig, body)
+    if n31:
+        asm.rewrites.append(('R31', fname, n31))
     for t in block:
         if t.startswith('skip_until '):
             # `skip_until "let (function, upvalues)" => "self.function_head();"`: only the statements FROM the first depth-1
@@ -1218,7 +1222,10 @@ def _emit_fn(asm, out, unit, kv, block, default_props):
                     txt += l + '\n'
             body = body[:pos] + txt + '    ' + body[pos:]
         else:
-            body = body[:pos] + ins + body[pos:]
+            # proof hints of the template are bracketed so that a failure INSIDE a hint (a lemma's precondition, a
+            # helper assertion) can be told apart from a failed clause of the contract: it is a failed proof, not a
+            # violated contract
+            body = body[:pos] + '/*@H<*/' + ins + '/*>H@*/' + body[pos:]
     # --- header clauses
     hdr_lines = []
     for a in attrs:
@@ -1385,6 +1392,20 @@ def classify(asm, res, canary_name):
                     break
             hard = (hard or '') + rendered[:1200] + '\n'
             continue
+        # a failure whose primary location lies inside a bracketed proof hint of the template: undecided, never refuted
+        in_hint = False
+        try:
+            if prim:
+                if not hasattr(asm, '_hint_regions'):
+                    asm._line_off = [0]
+                    for l_ in asm.text.split('\n'):
+                        asm._line_off.append(asm._line_off[-1] + len(l_) + 1)
+                    asm._hint_regions = [(m_.start(), m_.end()) for m_ in re.finditer(r'/\*@H<\*/.*?/\*>H@\*/', asm.text, re.S)]
+                sp0 = prim[0]
+                off = asm._line_off[sp0['line_start'] - 1] + max(0, sp0.get('column_start', 1) - 1)
+                in_hint = any(a_ <= off < b_ for (a_, b_) in asm._hint_regions)
+        except Exception:
+            in_hint = False
         hit = [o for o in asm.obligations if o.lines and (set(o.lines) & plines)]
         if not hit:
             hit = [o for o in asm.obligations if o.lines and (set(o.lines) & lines)]
@@ -1407,9 +1428,11 @@ def classify(asm, res, canary_name):
             hard = (hard or '') + 'unattributed verifier error: ' + rendered[:1200] + '\n'
             continue
         for o in hit:
-            if is_rl:
+            if is_rl or in_hint:
                 if o.status != 'refuted':
                     o.status = 'undecided'
+                if in_hint:
+                    o.detail += 'a PROOF HINT of the template failed (a lemma precondition or helper assertion inside an inserted proof block), not a clause of the contract: undecided\n'
             else:
                 o.status = 'refuted'
             o.detail += rendered[:3000] + '\n'
